@@ -86,7 +86,12 @@ var runners = map[string]func(*H){
 	"C09": runC09,
 	"C10": runC10,
 	"C11": runC11,
-	"C08": runC08,
+	"C08": func(h *H) {
+		runC08(h)
+		// "scores of /compute for requests with negative entries": the servers' split / discount around Compute,
+		// inline and through a stored reference (computed twice: the split must not eat into what is stored)
+		runOapiCompute("C08")(h)
+	},
 	"C04": runC04,
 	"C06": runC06,
 	"C07": runC07,
